@@ -95,6 +95,15 @@ def lxml_read(s):
         return None
 
 
+def presented_duplicates(t):
+    """two attributes of one element coincide as delb presents them (<b xmlns="u" xmlns:p="u" j="" p:j=""/>): legal XML,
+    but the content model (a mapping keyed by presented name) is not defined; the reference reader rejects it"""
+    if t is None or t[0] != "tag":
+        return False
+    keys = [(a[0], a[1]) for a in t[3]]
+    return len(set(keys)) != len(keys) or any(presented_duplicates(c) for c in t[4])
+
+
 def sort_attrs(t):
     if t[0] != "tag":
         return t
@@ -337,7 +346,9 @@ def check_cases(ctx, cases):
             else:
                 got = None if v_parse == [0] else sort_attrs(dec_node(v_parse, 1)[0])
                 # ---- (b) the reference reader against lxml on the serializer's output ----------------------
-                if got != lx:
+                if presented_duplicates(lx):
+                    ctx.count(0, "skipped/presented-duplicate-attributes")
+                elif got != lx:
                     ctx.mismatch("Reader.parse vs lxml on serializer output", {"input": sv, "reader": got, "lxml": lx})
                 if got != want:
                     fails.append("the reference reader (Xml/Reader.v parse, evaluated in Coq) does not give back the "
@@ -350,7 +361,9 @@ def check_cases(ctx, cases):
                     continue
                 got = None if v == [0] else sort_attrs(dec_node(v, 1)[0])
                 lxm = lxml_read(ms)
-                if got != lxm:
+                if presented_duplicates(lxm):
+                    ctx.count(0, "skipped/presented-duplicate-attributes")
+                elif got != lxm:
                     ctx.mismatch("Reader.parse vs lxml on mutated input (%s)" % kind, {"input": ms, "reader": got, "lxml": lxm})
         for f in fails[:1]:
             ctx.fail(f, dict(case, output=sv, original=want), classify)
@@ -384,7 +397,8 @@ def fixed_cases():
             '<p:r xmlns:p="u1" p:k="1" k="2"><a/><q:b xmlns:q="u2" q:k="v"/><!-- c --><?t p?></p:r>',
             '<TEI xmlns="t"><p n="1" xml:lang="en">x<hi>y</hi> z</p></TEI>',
             '<r><a xmlns="u1"><b xmlns="u2"/></a></r>', '<r>a<!--x-->b<?p q?>c</r>']
-    maps = [None, {}, {None: "u1"}, {"": "u2"}, {"p": "u1"}, {"tei": "t"}, {"ns0": "u2"}, {"p": "u1", "q": "u2"}]
+    maps = [None, {}, {None: "u1"}, {"": "u2"}, {"p": "u1"}, {"tei": "t"}, {"ns0": "u2"}, {"p": "u1", "q": "u2"},
+            {"xmldsig": "u1"}, {"xmlsec": "u2", "xm": "u1"}, {"xmlx": "t", "x": "u2"}]
     out = [{"route": "parse", "src": s, "mapping": mapping_json(m)} for s in srcs for m in maps]
     api = [("tag", "", "r", [], [("text", "a"), ("text", "b"), ("tag", "u1", "x", [("u2", "k", 'v"<')], [])]),
            ("tag", "u1", "r", [("", "k", "&amp;")], [("pi", "t", ""), ("comment", ""), ("text", "]]>")])]
